@@ -249,6 +249,9 @@ func runC10(c *report.Ctx) {
 
 	// ---- (4) excluded from selection -----------------------------------------------------------------------
 	ruleEligibility(c, false)
+
+	// ---- (5) the two history buckets keep their own key layouts --------------------------------------------
+	ruleSchema(c, []string{"nsGameHistory", "nsUnminedGameHistory"}, 6, 5)
 }
 
 // ruleClassBits: bit masks OR-ed into byte 8 of a credit value by the writers vs the reader's decode.
